@@ -352,8 +352,8 @@ func run(c *mon.Case) {
 
 func main() {
 	mon.Main(mon.Spec{
-		Prop: "C19",
-		Rule: "case = (pattern set, probe strings): exhaustive over all ordered sets of <=2 (quick; thorough: <=3) one-byte patterns with mask and bits in the 3 low bits probed with all 256 one-byte strings and the empty string; random sets of 2..12 patterns of length 1..4 with disjoint, nested and partially overlapping masks, bits outside the mask, derived near-duplicates and ill-formed members, probed with 120 strings derived from the patterns (free bits randomised, truncated, extended, one bit flipped) or random; non-trivial = set containing two well-formed patterns with partially overlapping masks, distinct by set",
+		Prop:        "C19",
+		Rule:        "case = (pattern set, probe strings): exhaustive over all ordered sets of <=2 (quick; thorough: <=3) one-byte patterns with mask and bits in the 3 low bits probed with all 256 one-byte strings and the empty string; random sets of 2..12 patterns of length 1..4 with disjoint, nested and partially overlapping masks, bits outside the mask, derived near-duplicates and ill-formed members, probed with 120 strings derived from the patterns (free bits randomised, truncated, extended, one bit flipped) or random; non-trivial = set containing two well-formed patterns with partially overlapping masks, distinct by set",
 		Explanation: "oracle: documented well-formedness; two patterns conflict iff they agree on the AND of their masks over the shorter length; NewMatcher must succeed iff all well formed and conflict free; Match must return the unique pattern matching the string's prefix (patterns longer than the string never match) or nothing",
 		Assumptions: []string{"own bitwise reference of matching/conflict"},
 		Cases: func(t string) int {
